@@ -5,7 +5,7 @@ from . import roundtrip as R
 from . import helpers_rules as H
 
 META = {
-    'claim_added': "Also decided: sweeten/savorize hook symmetry (same own-definition test, same ancestor walk); default stripping agrees with loading (R05.7) and matches() compares text with the default itself, bool arms by polarity; yatiml leaves PyYAML's alias bookkeeping alone; the seasoning transforms are all-or-nothing (R15.2, sharing the C15 known findings).",
+    'claim_added': "Also decided: sweeten/savorize hook symmetry (same own-definition test, same ancestor walk); default stripping agrees with loading (R05.7) and matches() compares text with the default itself, bool arms by polarity; yatiml leaves PyYAML's alias bookkeeping alone; the seasoning transforms are all-or-nothing (R15.2, sharing the C15 known findings). Round 3: the tag written for a type is accepted by that type's recogniser only (R05.11; string-like / Path objects referenced twice are a known finding), the YAML dump sites pass no emitter options (R12.1), recognition is a pure trial (R05.13).",
     'level': 'other',
     'technique': 'static: DFA language inclusion between the Dumper\'s and the Loader\'s implicit-resolver tables; reference '
                  'regex of PyYAML\'s scalar representers against the loader language; decision-list agreement of the two '
